@@ -555,6 +555,20 @@ class Heap:
         self.set('alive', z3.Store(self.get('alive', Ref, B), r, z3.BoolVal(True)))
 
 
+def _contains_binder(t, seen=None):
+    seen = set() if seen is None else seen
+    if z3.is_quantifier(t):
+        return True
+    i = t.get_id()
+    if i in seen:
+        return False
+    seen.add(i)
+    return any(_contains_binder(c, seen) for c in t.children())
+
+
+didx = z3.Function('didx', z3.ArraySort(I, Ref), I, Ref, I)   # position of a key in a dict's iteration order
+
+
 def dict_wf(h, d):
     """Well-formedness of the iteration order of dict d in heap h: Dkeys[0..Dlen) is a
     duplicate-free enumeration of Ddom.  True of every Python dict; assumed where a dict is iterated."""
@@ -564,10 +578,16 @@ def dict_wf(h, d):
            forall_int(0, n, lambda i: dom[keys[i]]),
            forall_int2(0, n, lambda i, j: keys[i] != keys[j])]
     if BOUND is None:
-        idx = z3.Function('didx', z3.ArraySort(I, Ref), I, Ref, I)   # skolem witness of membership
+        idx = didx
+        pats = [idx(keys, n, k)]
+        if not _contains_binder(dom):         # a term with a lambda inside cannot serve as a trigger
+            pats.append(dom[k])
         out.append(z3.ForAll([k], z3.Implies(dom[k], z3.And(0 <= idx(keys, n, k), idx(keys, n, k) < n,
-                                                            keys[idx(keys, n, k)] == k)), patterns=[dom[k]]))
+                                                            keys[idx(keys, n, k)] == k)), patterns=pats))
     else:
         SIDE.append(n <= BOUND)
-        out.append(dom == z3.Lambda([k], z3.Or(*[z3.And(c < n, keys[c] == k) for c in range(BOUND)])))
+        acc = z3.K(Ref, z3.BoolVal(False))
+        for c in range(BOUND):
+            acc = z3.If(n > c, z3.Store(acc, keys[c], z3.BoolVal(True)), acc)
+        out.append(dom == acc)       # ground: the domain is exactly the first n keys of the order
     return out
